@@ -47,7 +47,11 @@ def handle (s : DState) (line0 : String) : DState :=
         else
           let tags := twinCheck sa sb
           let flow := openFlow { sa.pre with env := sa.env } sa.sender sa.tx
-          let a := tags.foldl (fun a t => a.report "SPECFAIL" "C13" s!"{kindB}{flow}:{t}[native:{errB}]" txline) a
+          -- does the reference model (which mirrors the unchanged code, its recorded C13 divergences included:
+          -- `SatGReverse.reopen_exact`, `SatGWitness`) predict that the two deployments part on this very step?
+          let okOf (st : Perp.Spec.Step) : Bool := match Perp.World.applyTx st.pre st.env st.sender st.funds st.tx with | .ok _ => true | .error _ => false
+          let mv := if okOf sa == okOf sb then "{model-agrees}" else "{model-diverges}"
+          let a := tags.foldl (fun a t => a.report "SPECFAIL" "C13" s!"{kindB}{flow}:{t}[native:{errB}]{mv}" txline) a
           { s with acc := a, whB := h, twinA := none, twinDiverged := !tags.isEmpty }
       | _, _ => { s with acc := a, whB := h }
     else
